@@ -366,7 +366,16 @@ def _check_scalar(dtype, dtypes, dims):
             dim, _NamedVariadicDim
         ):
             return False
-    return (_any_dtype is dtypes) or any(d.startswith(dtype) for d in dtypes)
+    return (_any_dtype is dtypes) or any(_has_prefix(d, dtype) for d in dtypes)
+
+
+def _has_prefix(d, prefix):
+    if isinstance(d, re.Pattern):
+        # A pattern stands for every built-in dtype name that it matches.
+        names = bools + uints + ints + floats + complexes
+        return any(n.startswith(prefix) and d.match(n) for n in names)
+    else:
+        return d.startswith(prefix)
 
 
 class AbstractArray(metaclass=_MetaAbstractArray):
